@@ -656,7 +656,7 @@ class WalletTransaction(Transaction):
         self.error = None
         self.response_dict = None
         self.account_id = account_id
-        if not account_id:
+        if account_id is None:
             self.account_id = self.hdwallet.default_account_id
         witness_type = 'legacy'
         if hdwallet.witness_type in ['segwit', 'p2sh-segwit']:
